@@ -22,6 +22,9 @@ func (P *Program) bigEval(fn *ssa.Function) *BigEval {
 	if walkStartMax != 0 {
 		key += "|W"
 	}
+	if descReroot {
+		key += "|R" // terms name their symbols by descriptors: a different naming mode is a different evaluation
+	}
 	if be, ok := bigEvalCache[key]; ok {
 		return be
 	}
